@@ -612,7 +612,16 @@ class LinkWorld(object):
         wm = self.world.function(MODEL, "WaterNetworkModel")
         if not isinstance(wm, ClassRef):
             raise AnchorError("WaterNetworkModel is not a class of %s" % MODEL)
-        self.wn = Instance(wm)
+        # the model object: made by the repository's own constructor when this world can run it (every attribute __init__ sets is then present, whatever the
+        # code under analysis added there), a bare instance otherwise; the registries and options the histories work on are put in place below either way
+        try:
+            import re as _re, enum as _enum
+            self.world.overrides.setdefault("re", _re)
+            self.wn = wm()
+            if not isinstance(self.wn, Instance):
+                self.wn = Instance(wm)
+        except Exception:
+            self.wn = Instance(wm)
         # options: only `.time` (Pattern(..., time_options=options.time)) and `.hydraulic.pattern` (name of the default pattern) are read on the
         # paths interpreted here; None = no time options / no default pattern
         self.wn._attrs.update(_options=Namespace("options", time=None, hydraulic=Namespace("options.hydraulic", pattern=None)), _controls=collections.OrderedDict())
